@@ -125,7 +125,16 @@ def describe_switch(fn, defs, d):
             if rv[0] == "bin":
                 a = subject_name(fn, defs, rv[2])
                 c = subject_name(fn, defs, rv[3])
-                return "%s(%s,%s)" % (rv[1], a, c)
+                op = rv[1]
+                # canonical form: constant on the right, strict integer bounds (x >= 5 == x > 4)
+                flip = {"Lt": "Gt", "Le": "Ge", "Gt": "Lt", "Ge": "Le", "Eq": "Eq", "Ne": "Ne"}
+                if isinstance(a, int) and not isinstance(c, int) and op in flip:
+                    a, c, op = c, a, flip[op]
+                if isinstance(c, int) and op == "Ge":
+                    op, c = "Gt", c - 1
+                elif isinstance(c, int) and op == "Le":
+                    op, c = "Lt", c + 1
+                return "%s(%s,%s)" % (op, a, c)
             if rv[0] == "discr":
                 return "variant(%s)" % subject_name(fn, defs, ["c", rv[1]])
             if rv[0] == "use":
